@@ -94,7 +94,7 @@ type histOp struct {
 type cluster struct {
 	s            *sched
 	prop         string
-	clock        atomic.Int64
+	clock        *atomic.Int64
 	mu           sync.Mutex
 	ops          []*histOp
 	nextID       atomic.Int64
@@ -410,7 +410,11 @@ func (cl *cluster) checkDurability(reads map[string]*histOp, where string) {
 					if a.In.Kind == opDel || a.In.Kind == opDelRange {
 						what = "delete"
 					}
-					cl.s.r.Violate(cl.prop+"/acknowledged-"+what+"-lost/"+where+cl.label(), cl.why()+fmt.Sprintf("key %s reads %s (written via %s in term %d, returned at tick %d) although a %s acknowledged by %s in term %d was invoked later (tick %d) and nothing ordered after it is visible", k, rd.Out.Val, w.Node, w.Term, w.Ret, what, a.Node, a.Term, a.Call), cl.witness(k))
+					lbl, why := cl.s.m.rootCauseFor(a.Ret)
+					if why != "" {
+						why = "[" + why + "] "
+					}
+					cl.s.r.Violate(cl.prop+"/acknowledged-"+what+"-lost/"+where+lbl, why+fmt.Sprintf("key %s reads %s (written via %s in term %d, returned at tick %d) although a %s acknowledged by %s in term %d was invoked later (tick %d) and nothing ordered after it is visible", k, rd.Out.Val, w.Node, w.Term, w.Ret, what, a.Node, a.Term, a.Call), cl.witness(k))
 					break
 				}
 			}
@@ -427,7 +431,11 @@ func (cl *cluster) checkDurability(reads map[string]*histOp, where string) {
 					}
 				}
 				if !possible {
-					cl.s.r.Violate(cl.prop+"/acknowledged-put-lost/"+where+cl.label(), cl.why()+fmt.Sprintf("key %s is absent although put %s was acknowledged by %s in term %d (tick %d) and no delete could be ordered after it", k, a.In.Val, a.Node, a.Term, a.Ret), cl.witness(k))
+					lbl, why := cl.s.m.rootCauseFor(a.Ret)
+					if why != "" {
+						why = "[" + why + "] "
+					}
+					cl.s.r.Violate(cl.prop+"/acknowledged-put-lost/"+where+lbl, why+fmt.Sprintf("key %s is absent although put %s was acknowledged by %s in term %d (tick %d) and no delete could be ordered after it", k, a.In.Val, a.Node, a.Term, a.Ret), cl.witness(k))
 					break
 				}
 			}
@@ -445,7 +453,15 @@ func (cl *cluster) checkAckedVersions() {
 			continue
 		}
 		if p, ok := seen[o.Ver]; ok && p.In.Val != o.In.Val {
-			cl.s.r.Violate(cl.prop+"/two-acknowledged-writes-share-a-version-id"+cl.label(), cl.why()+fmt.Sprintf("version id %d was acknowledged for %s=%s (via %s, term %d) and for %s=%s (via %s, term %d): one of them is not in the surviving history", o.Ver, p.In.Key, p.In.Val, p.Node, p.Term, o.In.Key, o.In.Val, o.Node, o.Term), cl.witness(o.In.Key))
+			first := p.Ret
+			if o.Ret < first {
+				first = o.Ret
+			}
+			lbl, why := cl.s.m.rootCauseFor(first)
+			if why != "" {
+				why = "[" + why + "] "
+			}
+			cl.s.r.Violate(cl.prop+"/two-acknowledged-writes-share-a-version-id"+lbl, why+fmt.Sprintf("version id %d was acknowledged for %s=%s (via %s, term %d) and for %s=%s (via %s, term %d): one of them is not in the surviving history", o.Ver, p.In.Key, p.In.Val, p.Node, p.Term, o.In.Key, o.In.Val, o.Node, o.Term), cl.witness(o.In.Key))
 			return
 		}
 		seen[o.Ver] = o
@@ -668,7 +684,10 @@ func runCluster(prop, part, tier string, seed uint64, idx int) core.Result {
 	}
 	defer cleanup()
 	s.ownWrites = false
-	cl := &cluster{s: s, prop: prop, leadersAcked: map[string]bool{}, verVal: map[int64]string{}, readTimeout: 500 * time.Millisecond}
+	s.m.mu.Lock()
+	s.m.clock = new(atomic.Int64)
+	s.m.mu.Unlock()
+	cl := &cluster{s: s, prop: prop, clock: s.m.clock, leadersAcked: map[string]bool{}, verVal: map[int64]string{}, readTimeout: 500 * time.Millisecond}
 	nkeys, nclients := 8, 4
 	if prop == "C02" {
 		nkeys, nclients = 6, 5
